@@ -7,6 +7,26 @@ list (`int` = RL action, `["reset", seed|None]` = env.reset) and prints one cano
 agent histories at every reset and at the end.  Opaque identifiers (uuid4 strings, MAC addresses) are renamed to their
 first-seen index over the whole output; timestamps are erased.  The parent diffs the streams line by line.
 
+Every `new` / `reset` line and every histories line also carries `rng`: digests of the states of python's `random`, numpy's
+global generator and torch's CPU generator at that moment ("the generators right after reset(seed=s) are the same in every
+process and after every history" is compared through them).
+
+`pick_hashseeds` chooses PYTHONHASHSEED values under which the string vocabularies of a scenario (host names, addresses, every
+list of strings in the config) are iterated in pairwise DIFFERENT set orders, so that a `list(set(names))` feeding an
+index-based choice cannot hide behind two interpreters that happen to agree.
+
+PROCESS HISTORY: a variant may carry `warm` = indices into `spec["warm"]` (other scenarios as YAML + a number of steps): the worker
+builds, steps, resets and closes those environments FIRST and only then runs the case, so that anything that survives between games
+in one interpreter (class attributes, module-level objects, registries, the global generators) has a non-default value when the case
+starts. The case's lines must equal those of a worker that started fresh.
+
+FORK SERVERS (`Servers`, `--server`): importing the code under test costs 4 s per interpreter; instead of one interpreter per
+(case, variant) the parent starts ONE server per PYTHONHASHSEED value, which imports the code once and forks a child per job. A
+child has exactly the state an interpreter has right after the imports (python's `random` is re-seeded in a forked child by
+CPython; numpy's global generator, seeded from OS entropy at import, is shared by the children of ONE server and differs between
+servers - the comparison is always across servers), gets a session directory of its own, and runs `run_spec`. The stored corpus
+witnesses and `--replay` still start one interpreter per variant.
+
 The worker half (`python -m harness.rigs.xproc`) imports primaite; the parent half does not.
 """
 from __future__ import annotations
@@ -88,6 +108,26 @@ def _item(it) -> Any:
             "r": None if it.reward is None else float(it.reward).hex()}
 
 
+def rng_digest() -> Dict[str, str]:
+    """Digests of the global generator states (python random, numpy global, torch CPU if imported)."""
+    import hashlib
+    import random as _random
+    out = {"py": hashlib.sha1(repr(_random.getstate()).encode()).hexdigest()[:12]}
+    try:
+        import numpy as np
+        st = np.random.get_state()
+        out["np"] = hashlib.sha1(st[1].tobytes() + repr(st[2:]).encode()).hexdigest()[:12]
+    except Exception:  # pragma: no cover
+        pass
+    th = sys.modules.get("torch")
+    if th is not None:
+        try:
+            out["torch"] = hashlib.sha1(th.get_rng_state().numpy().tobytes()).hexdigest()[:12]
+        except Exception:
+            pass
+    return out
+
+
 # ------------------------------------------------------------------------------------------------ worker
 def _pin(pin: Dict):
     """In-process wrappers (no hooks in the repository): a clock whose microsecond field is fixed, a fixed ICMP identifier."""
@@ -116,18 +156,23 @@ def _pin(pin: Dict):
 
 def worker_main() -> int:
     spec = json.loads(sys.stdin.read())
+    out = sys.__stdout__
+    sys.stdout = open(os.devnull, "w")  # PrettyTable prints etc. must not mix with the protocol
+    return run_spec(spec, out)
+
+
+def run_spec(spec: Dict, out) -> int:
+    """Play one case (warm-ups, construction, operations) and write the canonical lines to `out`."""
     import logging
     import warnings
     warnings.filterwarnings("ignore")
-    if not spec.get("loud"):
-        logging.disable(logging.WARNING)
-    out = sys.__stdout__
-    sys.stdout = open(os.devnull, "w")  # PrettyTable prints etc. must not mix with the protocol
+    logging.disable(logging.NOTSET if spec.get("loud") else logging.WARNING)
     canon = Canon()
 
     def emit(obj):
         out.write(canon.text(json.dumps(obj, sort_keys=False, default=str)) + "\n")
 
+    warm_failed: List[str] = []
     try:
         _pin(spec.get("pin") or {})
         from primaite.session.environment import PrimaiteGymEnv
@@ -137,18 +182,38 @@ def worker_main() -> int:
         io = dict(cfg.get("io_settings") or {})
         io.update(LOUD_IO if spec.get("loud") else QUIET_IO)
         cfg["io_settings"] = io
+        # -- process history: other games are built, played and closed in this interpreter before the case starts
+        for wi in (spec.get("warm_idx") or []):
+            w = spec["warm"][wi]
+            try:
+                wcfg = yaml.safe_load(w["cfg_yaml"])
+                wio = dict(wcfg.get("io_settings") or {})
+                wio.update(QUIET_IO)
+                wcfg["io_settings"] = wio
+                wenv = PrimaiteGymEnv(env_config=wcfg)
+                for _ in range(int(w.get("steps", 3))):
+                    wenv.step(0)
+                if w.get("reset"):
+                    wenv.reset()
+                    wenv.step(0)
+                wenv.close()
+                del wenv
+            except Exception as e:  # a warm-up that cannot run is reported to the parent (counted; not part of the compared stream)
+                warm_failed.append(f"WARMUP-FAILED {wi} {type(e).__name__}: {str(e)[:120]}")
+        canon.ids.clear()
         env = PrimaiteGymEnv(env_config=cfg)
 
         def hist():
-            return {"histories": {n: [_item(i) for i in a.history] for n, a in env.game.agents.items()}}
+            return {"histories": {n: [_item(i) for i in a.history] for n, a in env.game.agents.items()}, "rng": rng_digest()}
 
-        emit({"op": "new", "agents": list(env.game.agents), "order_deps_first": _order_ok(env.game)})
+        emit({"op": "new", "agents": list(env.game.agents), "order_deps_first": _order_ok(env.game), "rng": rng_digest(),
+              "obs": _plain(env._get_obs())})
         for op in spec["ops"]:
             if isinstance(op, list) and op and op[0] == "reset":
                 emit(hist())
                 canon.ids.clear()  # identifiers are numbered per episode (the new game shares none with the old one)
                 obs, info = env.reset(seed=op[1])
-                emit({"op": "reset", "obs": _plain(obs)})
+                emit({"op": "reset", "seed": op[1], "obs": _plain(obs), "rng": rng_digest()})
                 continue
             obs, reward, term, trunc, info = env.step(op)
             if not _order_ok(env.game):
@@ -164,8 +229,131 @@ def worker_main() -> int:
         import traceback
         tb = traceback.extract_tb(e.__traceback__)[-1]
         emit({"raised": type(e).__name__, "where": f"{tb.filename.split('primaite/')[-1]}:{tb.name}", "msg": str(e)[:200]})
+    out.write(META_PREFIX + json.dumps({"warm_failed": warm_failed}) + "\n")  # trailer for the parent, stripped before comparison
     out.flush()
     return 0
+
+
+# ------------------------------------------------------------------------------------------------ fork server
+META_PREFIX = "#meta "
+
+
+def server_main() -> int:
+    """`python -m harness.rigs.xproc --server`: import the code under test ONCE, then fork one child per job (a JSON line
+    {"spec": …, "out": path} on stdin). A child starts from exactly the state an interpreter has right after the imports (plus a
+    session directory of its own), plays the job with `run_spec`, writes the lines to `out`.tmp and renames it to `out`."""
+    import signal
+    sys.stdout = open(os.devnull, "w")
+    import warnings
+    warnings.filterwarnings("ignore")
+    import logging
+    logging.disable(logging.WARNING)
+    import yaml  # noqa: F401
+    import primaite.session.environment  # noqa: F401  (the 4 s the server exists to pay once)
+    signal.signal(signal.SIGCHLD, signal.SIG_IGN)  # children are reaped automatically
+    sys.__stdout__.write("ready\n")
+    sys.__stdout__.flush()
+    for line in sys.stdin:
+        line = line.strip()
+        if not line:
+            continue
+        job = json.loads(line)
+        pid = os.fork()
+        if pid:
+            continue
+        # ---- child
+        code = 0
+        try:
+            signal.signal(signal.SIGCHLD, signal.SIG_DFL)
+            from primaite.simulator import SIM_OUTPUT
+            SIM_OUTPUT.time_str = f"{SIM_OUTPUT.time_str}-{os.getpid()}"  # a session directory of its own (file output only)
+            tmp = job["out"] + ".tmp"
+            with open(tmp, "w") as f:
+                run_spec(job["spec"], f)
+            os.replace(tmp, job["out"])
+        except BaseException as e:  # pragma: no cover
+            try:
+                with open(job["out"] + ".tmp", "a") as f:
+                    f.write(json.dumps({"raised": "worker-crashed", "msg": f"{type(e).__name__}: {e}"[:200]}) + "\n")
+                os.replace(job["out"] + ".tmp", job["out"])
+            except Exception:
+                pass
+            code = 1
+        os._exit(code)
+    return 0
+
+
+class Servers:
+    """One fork server per PYTHONHASHSEED value; jobs are played by forked children (fresh post-import state each)."""
+
+    def __init__(self, repo: Path, verif: Path):
+        self.repo, self.verif = repo, verif
+        self.root = Path(tempfile.mkdtemp(prefix="c03-servers-"))
+        self.procs: Dict[int, subprocess.Popen] = {}
+        self.n = 0
+        import threading
+        self.lock = threading.Lock()
+
+    def _server(self, hashseed: int) -> subprocess.Popen:
+        with self.lock:
+            if hashseed not in self.procs:
+                home = self.root / f"home-{hashseed}"
+                home.mkdir()
+                env = {"PATH": os.environ.get("PATH", ""), "HOME": str(home), "PYTHONHASHSEED": str(hashseed),
+                       "PYTHONPATH": str(self.repo / "src") + os.pathsep + str(self.verif), "PRIMAITE_REPO": str(self.repo), "PRIMAITE_VERIF": "1",
+                       "TMPDIR": str(home), "XDG_CONFIG_HOME": str(home / ".config"), "XDG_DATA_HOME": str(home / ".local"),
+                       "XDG_STATE_HOME": str(home / ".state"), "XDG_CACHE_HOME": str(home / ".cache")}
+                p = subprocess.Popen([sys.executable, "-m", "harness.rigs.xproc", "--server"], cwd=str(self.verif), env=env, stdin=subprocess.PIPE,
+                                     stdout=subprocess.PIPE, stderr=subprocess.DEVNULL, text=True)
+                if p.stdout.readline().strip() != "ready":
+                    raise RuntimeError(f"fork server for PYTHONHASHSEED={hashseed} did not start")
+                self.procs[hashseed] = p
+            return self.procs[hashseed]
+
+    def start(self, hashseeds) -> None:
+        """start the servers of these seeds concurrently (each pays the import once)"""
+        import concurrent.futures as cf
+        with cf.ThreadPoolExecutor(max(1, len(list(hashseeds)))) as ex:
+            list(ex.map(self._server, list(hashseeds)))
+
+    def submit(self, hashseed: int, spec: Dict) -> Path:
+        p = self._server(hashseed)
+        with self.lock:
+            self.n += 1
+            out = self.root / f"job-{self.n}.out"
+            p.stdin.write(json.dumps({"spec": spec, "out": str(out)}) + "\n")
+            p.stdin.flush()
+        return out
+
+    @staticmethod
+    def wait(out: Path, timeout: int = 900) -> List[str]:
+        import time
+        t0 = time.time()
+        while not out.exists():
+            if time.time() - t0 > timeout:
+                return []
+            time.sleep(0.05)
+        return out.read_text().splitlines()
+
+    def close(self) -> None:
+        for p in self.procs.values():
+            try:
+                p.stdin.close()
+                p.terminate()
+            except Exception:
+                pass
+        shutil.rmtree(self.root, ignore_errors=True)
+
+
+def _split_meta(lines: List[str]) -> Tuple[List[str], str]:
+    meta = [l for l in lines if l.startswith(META_PREFIX)]
+    err = ""
+    for m in meta:
+        try:
+            err += "\n".join(json.loads(m[len(META_PREFIX):]).get("warm_failed", []))
+        except Exception:
+            pass
+    return [l for l in lines if not l.startswith(META_PREFIX)], err
 
 
 def _order_ok(game) -> bool:
@@ -218,11 +406,24 @@ def _probe(env, what: Dict) -> Any:
 
 
 # ------------------------------------------------------------------------------------------------ parent
-def run_workers(spec: Dict, variants: List[Dict], repo: Path, verif: Path, timeout: int = 900) -> List[Tuple[Dict, List[str], str]]:
-    """One fresh interpreter per variant, in parallel. Returns [(variant, lines, stderr-tail)]."""
+def run_workers(spec: Dict, variants: List[Dict], repo: Path, verif: Path, timeout: int = 900, servers: Optional["Servers"] = None
+                ) -> List[Tuple[Dict, List[str], str]]:
+    """One fresh interpreter per variant, in parallel (or, with `servers`, one forked child of the fork server of the variant's
+    PYTHONHASHSEED). Returns [(variant, lines, stderr-tail)]."""
     import yaml
     procs = []
     cfg_yaml = spec.get("cfg_yaml") or yaml.safe_dump(spec["cfg"], sort_keys=False)
+    if servers is not None:
+        outs = []
+        for v in variants:
+            s = {k: x for k, x in spec.items() if k != "cfg"}
+            s.update(cfg_yaml=cfg_yaml, loud=bool(v.get("loud")), pin=v.get("pin"), warm_idx=list(v.get("warm") or []))
+            outs.append((v, servers.submit(int(v.get("hashseed", 0)), s)))
+        res = []
+        for v, out in outs:
+            lines, err = _split_meta(Servers.wait(out, timeout))
+            res.append((v, lines, err if lines else "no output from forked worker"))
+        return res
     tmp_root = Path(tempfile.mkdtemp(prefix="c03-xproc-"))
     try:
         for k, v in enumerate(variants):
@@ -233,7 +434,7 @@ def run_workers(spec: Dict, variants: List[Dict], repo: Path, verif: Path, timeo
                    "TMPDIR": str(home), "XDG_CONFIG_HOME": str(home / ".config"), "XDG_DATA_HOME": str(home / ".local"),
                    "XDG_STATE_HOME": str(home / ".state"), "XDG_CACHE_HOME": str(home / ".cache")}
             s = {k: x for k, x in spec.items() if k != "cfg"}
-            s.update(cfg_yaml=cfg_yaml, loud=bool(v.get("loud")), pin=v.get("pin"))
+            s.update(cfg_yaml=cfg_yaml, loud=bool(v.get("loud")), pin=v.get("pin"), warm_idx=list(v.get("warm") or []))
             p = subprocess.Popen([sys.executable, "-m", "harness.rigs.xproc"], cwd=str(verif), env=env, stdin=subprocess.PIPE,
                                  stdout=subprocess.PIPE, stderr=subprocess.PIPE, text=True)
             p.stdin.write(json.dumps(s))
@@ -248,10 +449,88 @@ def run_workers(spec: Dict, variants: List[Dict], repo: Path, verif: Path, timeo
             except subprocess.TimeoutExpired:
                 p.kill()
                 so, se = "", "timeout"
-            res.append((v, so.splitlines(), se[-1500:]))
+            lines, err = _split_meta(so.splitlines())
+            res.append((v, lines, (se[-1500:] + "\n" + err)))
         return res
     finally:
         shutil.rmtree(tmp_root, ignore_errors=True)
+
+
+_ORDER_PROBE = ("import json,sys\n"
+                "v=json.loads(sys.stdin.read())\n"
+                "print(json.dumps([list(set(l)) for l in v]))\n")
+
+
+def string_vocabularies(cfg: Any, cap: int = 40) -> List[List[str]]:
+    """Every list of >= 2 distinct strings in the config (host lists, start nodes, target addresses, …), plus all host names and all
+    addresses: the candidates for `set(...)` in the code under test."""
+    out: List[List[str]] = []
+    seen = set()
+
+    def add(l):
+        l = sorted(set(l))
+        if len(l) >= 2 and tuple(l) not in seen and len(out) < cap:
+            seen.add(tuple(l))
+            out.append(l)
+
+    hosts, ips = [], []
+
+    def rec(x):
+        if isinstance(x, dict):
+            if isinstance(x.get("hostname"), str):
+                hosts.append(x["hostname"])
+            if isinstance(x.get("ip_address"), str):
+                ips.append(x["ip_address"])
+            for v in x.values():
+                rec(v)
+        elif isinstance(x, list):
+            if x and all(isinstance(e, str) for e in x):
+                add(x)
+            for v in x:
+                rec(v)
+    rec(cfg)
+    add(hosts)
+    add(ips)
+    return out
+
+
+def pick_hashseeds(vocabs: List[List[str]], n: int, candidates: List[int]) -> Tuple[List[int], Dict[str, int]]:
+    """Among `candidates`, n PYTHONHASHSEED values whose set-iteration orders of the vocabularies differ from each other on as many
+    vocabularies as possible (greedy). Returns (seeds, {"vocabularies": …, "distinguished": number of vocabularies on which the chosen
+    seeds do not all agree})."""
+    if not vocabs:
+        return candidates[:n], {"vocabularies": 0, "distinguished": 0}
+    procs = []
+    for hs in candidates:
+        env = {"PATH": os.environ.get("PATH", ""), "PYTHONHASHSEED": str(hs)}
+        # (not -E: that would make the probe ignore PYTHONHASHSEED)
+        p = subprocess.Popen([sys.executable, "-S", "-c", _ORDER_PROBE], env=env, stdin=subprocess.PIPE, stdout=subprocess.PIPE,
+                             stderr=subprocess.DEVNULL, text=True)
+        p.stdin.write(json.dumps(vocabs))
+        p.stdin.close()
+        procs.append((hs, p))
+    orders: Dict[int, List[List[str]]] = {}
+    for hs, p in procs:
+        try:
+            orders[hs] = json.loads(p.stdout.read())
+            p.wait(timeout=60)
+        except Exception:
+            p.kill()
+    cands = [c for c in candidates if c in orders]
+    if not cands:
+        return candidates[:n], {"vocabularies": len(vocabs), "distinguished": 0}
+    chosen = [cands[0]]
+    while len(chosen) < n and len(chosen) < len(cands):
+        def score(c):
+            # number of vocabularies on which c differs from EVERY chosen seed, then from at least one
+            every = sum(1 for i in range(len(vocabs)) if all(orders[c][i] != orders[d][i] for d in chosen))
+            some = sum(1 for i in range(len(vocabs)) if any(orders[c][i] != orders[d][i] for d in chosen))
+            return (every, some)
+        best = max((c for c in cands if c not in chosen), key=score)
+        chosen.append(best)
+    dist = sum(1 for i in range(len(vocabs)) if len({tuple(orders[c][i]) for c in chosen}) > 1)
+    return chosen, {"vocabularies": len(vocabs), "distinguished": dist,
+                    "pairwise_all_differ": sum(1 for i in range(len(vocabs)) if len({tuple(orders[c][i]) for c in chosen}) == len(chosen))}
 
 
 def first_diff(a: List[str], b: List[str]) -> Optional[int]:
@@ -292,4 +571,4 @@ def describe_diff(a: str, b: str) -> Dict:
 
 
 if __name__ == "__main__":
-    sys.exit(worker_main())
+    sys.exit(server_main() if "--server" in sys.argv else worker_main())
